@@ -1,9 +1,19 @@
 (* LimitsProofs.v -- proofs about the limit negotiation model (Limits.v) and the C05 statements that
    combine it with the container lemmas of ReservoirProofs / MetricsProofs / ErrTraceProofs /
-   SlowSQLProofs and with the processor model. *)
-From Coq Require Import ZArith List Bool Lia.
+   SlowSQLProofs and with the processor model (application cap).
+
+   Remark [float_domain].  processLogEventLimits computes int(float64(agent) * float64(period) / 6e10).
+   Limits.scale_agent_log is the exact integer quotient truncated towards zero.  The two agree whenever
+   |agent * period| < 2^53 (both factors and the product are exact in float64, and a correctly rounded
+   quotient of integers whose exact value is at least 1/6e10 away from the next integer cannot reach it:
+   half an ulp below 2^15 is 1.8e-12).  When the product is larger the float64 quotient is above 1.5e5,
+   i.e. above every collector limit (<= 20000), as is the exact one, so the comparison
+   `0 <= scaled < collectorLimit` has the same outcome; negative products give negative or zero quotients
+   in both.  Hence final_log_limit is what the Go code computes, for every input. *)
+From Coq Require Import ZArith NArith List Bool Permutation Lia Arith.
 From Verif.Gen Require Import Limits_gen.
-From Verif Require Import Limits.
+From Verif Require Import Heap TopK Reservoir ReservoirProofs Metrics MetricsProofs ErrTrace ErrTraceProofs
+  SlowSQL SlowSQLProofs Processor Limits C05Check.
 Import ListNotations.
 Open Scope Z_scope.
 
@@ -15,3 +25,1114 @@ Lemma limits_documented :
   MaxLogMaxEvents = 20000 /\ DefaultReportPeriod = 60 * 1000000000 /\
   FailedEventsAttemptsLimit = 10 /\ FailedMetricAttemptsLimit = 5.
 Proof. repeat split. Qed.
+
+(* ================================================================== machine integers, decoding *)
+Lemma two63_val : two63 = 9223372036854775808. Proof. reflexivity. Qed.
+Lemma two64_val : two64 = 18446744073709551616. Proof. reflexivity. Qed.
+
+Lemma wrap64_small u : 0 <= u < two63 -> wrap64 u = u.
+Proof.
+  intros H. unfold wrap64. rewrite two63_val, two64_val in *.
+  rewrite Z.mod_small by lia. destruct (Z.ltb_spec u 9223372036854775808); lia.
+Qed.
+
+Lemma wrap64_big u : two63 <= u < two64 -> wrap64 u = u - two64.
+Proof.
+  intros H. unfold wrap64. rewrite two63_val, two64_val in *.
+  rewrite Z.mod_small by lia. destruct (Z.ltb_spec u 9223372036854775808); lia.
+Qed.
+
+Lemma wrap64_range z : - two63 <= wrap64 z < two63.
+Proof.
+  unfold wrap64. rewrite two63_val, two64_val.
+  pose proof (Z.mod_pos_bound z 18446744073709551616 ltac:(lia)).
+  destruct (Z.ltb_spec (z mod 18446744073709551616) 9223372036854775808); lia.
+Qed.
+
+(* lowering a maximum to a uint64 agent setting: the conversion to int does no harm *)
+Lemma lowered_uint64 max u : 0 <= max < two63 -> 0 <= u < two64 -> lowered max (int_of_uint64 u) = Z.min max u.
+Proof.
+  intros Hm Hu. unfold lowered, int_of_uint64.
+  destruct (Z.ltb_spec u two63) as [Hs|Hb].
+  - rewrite wrap64_small by lia.
+    destruct (Z.ltb_spec u max), (Z.leb_spec 0 u); cbn; lia.
+  - rewrite wrap64_big by lia. rewrite two63_val, two64_val in *.
+    destruct (Z.ltb_spec (u - 18446744073709551616) max), (Z.leb_spec 0 (u - 18446744073709551616)); cbn; lia.
+Qed.
+
+Lemma advertised_spec a :
+  0 <= a_span a < two64 -> 0 <= a_log a < two64 -> 0 <= a_custom a < two64 ->
+  advertised a = (60000, (100, 10000, Z.min 100000 (a_custom a), Z.min 10000 (a_span a), Z.min 20000 (a_log a))).
+Proof.
+  intros Hs Hl Hc. unfold advertised, new_event_harvest_config, new_harvest_limits, unmarshal_agent_limits.
+  cbn [cfgs report_period c_error c_txn c_custom c_span c_log ec_limit al_span al_log al_custom].
+  assert (B : forall m, In m [MaxSpanMaxEvents; MaxLogMaxEvents; MaxCustomMaxEvents] -> 0 <= m < two63).
+  { intros m [<-|[<-|[<-|[]]]]; vm_compute; split; congruence. }
+  rewrite (lowered_uint64 MaxSpanMaxEvents (a_span a)) by (try assumption; apply B; cbn; auto).
+  rewrite (lowered_uint64 MaxLogMaxEvents (a_log a)) by (try assumption; apply B; cbn; auto).
+  rewrite (lowered_uint64 MaxCustomMaxEvents (a_custom a)) by (try assumption; apply B; cbn; auto).
+  reflexivity.
+Qed.
+
+Lemma new_harvest_limits_nil :
+  map (fun k => ec_limit (cfg_of (new_harvest_limits None) k)) ecats = [100; 10000; 100000; 10000; 20000].
+Proof. reflexivity. Qed.
+
+(* ---- getEventConfig ---- *)
+Lemma get_event_config_spec raw rate dl dr e :
+  0 <= dl -> get_event_config raw rate dl dr = Some e ->
+  match raw with
+  | None => e = EvCfg dl dr
+  | Some l => 0 <= l /\ e = EvCfg (Z.min dl l) rate
+  end.
+Proof.
+  intros Hd. unfold get_event_config. destruct raw as [l|]; [|intros H; inversion H; reflexivity].
+  destruct (Z.ltb_spec l 0) as [Hn|Hp]; [discriminate|]. intros He. inversion He. split; [lia|].
+  destruct (Z.ltb_spec dl l); f_equal; lia.
+Qed.
+
+Lemma get_event_config_none raw rate dl dr :
+  get_event_config raw rate dl dr = None <-> exists l, raw = Some l /\ l < 0.
+Proof.
+  unfold get_event_config. destruct raw as [l|].
+  - destruct (Z.ltb_spec l 0) as [Hn|Hp]; split; intros Hx; try discriminate; try reflexivity.
+    + exists l. split; [reflexivity|lia].
+    + destruct Hx as [l' [E Hl]]. inversion E. lia.
+  - split; [discriminate|]. intros [l [E _]]. discriminate.
+Qed.
+
+(* decoding a *int member *)
+Lemma dec_int_ptr_spec j init o : dec_int_ptr j init = Some o ->
+  match j with
+  | JAbsent => o = init
+  | JNull => o = None
+  | JInt z => o = Some z /\ - two63 <= z < two63
+  | JOther => False
+  end.
+Proof.
+  destruct j as [| |z|]; cbn [dec_int_ptr]; intros H; try (inversion H; reflexivity); try discriminate.
+  unfold in_int64 in H. destruct (Z.leb_spec (- two63) z) as [Ha|Ha], (Z.ltb_spec z two63) as [Hb|Hb]; cbn in H; try discriminate.
+  inversion H. split; [reflexivity|lia].
+Qed.
+
+(* the limit a category ends up with, from the member the collector wrote *)
+Lemma limit_of_member j init max rate dr o e :
+  0 <= max -> (init = None \/ init = Some max) ->
+  dec_int_ptr j init = Some o -> get_event_config o rate max dr = Some e ->
+  ec_limit e = capped max j /\ 0 <= ec_limit e <= max /\
+  ec_period e = (match j with JInt _ => rate | JAbsent => match init with Some _ => rate | None => dr end | _ => dr end).
+Proof.
+  intros Hm Hi Hd Hg. apply dec_int_ptr_spec in Hd.
+  pose proof (get_event_config_spec o rate max dr e Hm Hg) as Hs.
+  destruct j as [| |z|]; cbn [capped].
+  - subst o. destruct Hi as [->| ->].
+    + subst e. cbn. lia.
+    + destruct Hs as [_ ->]. cbn. lia.
+  - subst o. subst e. cbn. lia.
+  - destruct Hd as [-> Hz]. destruct Hs as [H0 ->]. cbn. lia.
+  - contradiction.
+Qed.
+
+Definition member (r : raw_ehc) (k : ecat) : jval :=
+  match k with EError => r_error r | ETxn => r_txn r | ECustom => r_custom r | ESpan => r_span r | ELog => r_log r end.
+
+Lemma daemon_max_doc k : daemon_max k = doc_max k.
+Proof. destruct k; reflexivity. Qed.
+Lemma daemon_max_nonneg k : 0 <= daemon_max k.
+Proof. destruct k; vm_compute; congruence. Qed.
+
+Ltac inv_obind H :=
+  repeat match type of H with
+         | obind ?x _ = Some _ => let E := fresh "E" in destruct x eqn:E; [cbn [obind] in H|discriminate H]
+         end.
+
+Lemma unmarshal_ehc_inv r e : unmarshal_ehc r = Some e ->
+  exists ms, dec_uint64 (r_period r) default_period_ms = Some ms /\ report_period e = report_period_of ms /\
+  forall k,
+    ec_limit (cfg_of (cfgs e) k) = capped (daemon_max k) (member r k) /\
+    0 <= ec_limit (cfg_of (cfgs e) k) <= daemon_max k /\
+    ec_period (cfg_of (cfgs e) k) =
+      match member r k with JInt _ => report_period_of ms | _ => DefaultReportPeriod end.
+Proof.
+  unfold unmarshal_ehc. intros H. inv_obind H. cbv zeta in H. inv_obind H.
+  inversion H; subst e; clear H. eexists. split; [reflexivity|]. split; [reflexivity|].
+  intros k.
+  destruct k; cbn [cfg_of cfgs c_error c_txn c_custom c_span c_log member daemon_max];
+    match goal with
+    | Hd : dec_int_ptr ?j None = Some ?o, Hg : get_event_config ?o _ ?mx _ = Some ?ev |- context [ec_limit ?ev] =>
+        destruct (limit_of_member j None mx _ _ o ev ltac:(vm_compute; congruence) (or_introl eq_refl) Hd Hg) as (A & B & C);
+        rewrite A, C; split; [reflexivity|]; split; [rewrite <- A; exact B|]; destruct j; reflexivity
+    end.
+Qed.
+
+Lemma unmarshal_sehc_inv r s : unmarshal_sehc r = Some s ->
+  exists ms, dec_uint64 (s_period r) default_period_ms = Some ms /\
+  ec_limit s = capped MaxSpanMaxEvents (s_limit r) /\ 0 <= ec_limit s <= MaxSpanMaxEvents /\
+  ec_period s = match s_limit r with JInt _ | JAbsent => report_period_of ms | _ => DefaultReportPeriod end.
+Proof.
+  unfold unmarshal_sehc. intros H. inv_obind H.
+  eexists. split; [reflexivity|].
+  match goal with
+  | Hd : dec_int_ptr ?j ?init = Some ?o |- _ =>
+      destruct (limit_of_member j init MaxSpanMaxEvents _ _ o s ltac:(vm_compute; congruence) (or_intror eq_refl) Hd H) as (A & B & C)
+  end.
+  split; [exact A|]. split; [exact B|]. rewrite C. destruct (s_limit r); reflexivity.
+Qed.
+
+(* ---- processLogEventLimits ---- *)
+Lemma final_log_limit_le agent coll p : final_log_limit agent coll p <= coll.
+Proof.
+  unfold final_log_limit. cbv zeta.
+  destruct (Z.leb_spec 0 (scale_agent_log agent p)), (Z.ltb_spec (scale_agent_log agent p) coll); cbn; lia.
+Qed.
+
+Lemma final_log_limit_nonneg agent coll p : 0 <= coll -> 0 <= final_log_limit agent coll p.
+Proof.
+  intros Hc. unfold final_log_limit. cbv zeta.
+  destruct (Z.leb_spec 0 (scale_agent_log agent p)), (Z.ltb_spec (scale_agent_log agent p) coll); cbn; lia.
+Qed.
+
+Lemma default_report_period_val : DefaultReportPeriod = 60000000000.
+Proof. reflexivity. Qed.
+
+(* a valid (non-negative) agent limit and a non-negative period: the smaller of the collector's limit and
+   the agent's limit scaled to the period *)
+Lemma final_log_limit_exact agent coll p :
+  0 <= agent -> 0 <= p -> coll < two63 ->
+  final_log_limit agent coll p = Z.min coll (agent * p / 60000000000).
+Proof.
+  intros Ha Hp Hc. unfold final_log_limit, scale_agent_log. cbv zeta. rewrite default_report_period_val.
+  assert (Hap : 0 <= agent * p) by (apply Z.mul_nonneg_nonneg; assumption).
+  rewrite Z.quot_div_nonneg by lia.
+  set (q := agent * p / 60000000000).
+  assert (Hq : 0 <= q) by (apply Z.div_pos; lia).
+  destruct (Z.ltb_spec q two63) as [H2|H2].
+  - assert (F : f2i q = q).
+    { unfold f2i, in_int64. destruct (Z.leb_spec (- two63) q) as [H1|H1]; [|rewrite two63_val in *; lia].
+      destruct (Z.ltb_spec q two63); [reflexivity|lia]. }
+    rewrite F. destruct (Z.leb_spec 0 q), (Z.ltb_spec q coll); cbn [andb]; lia.
+  - assert (F : f2i q = - two63).
+    { unfold f2i, in_int64. destruct (Z.ltb_spec q two63); [lia|]. rewrite andb_false_r. reflexivity. }
+    rewrite F. destruct (Z.leb_spec 0 (- two63)) as [H3|H3]; [rewrite two63_val in *; lia|]. cbn [andb]. lia.
+Qed.
+
+(* whatever the agent sent (also a value that is negative as an int): never above the collector's limit,
+   and never above a valid agent limit scaled to the period *)
+Lemma final_log_limit_agent_bound agent coll p :
+  0 <= agent -> 0 <= p -> coll < two63 -> final_log_limit agent coll p <= agent * p / 60000000000.
+Proof. intros. rewrite final_log_limit_exact by assumption. lia. Qed.
+
+Lemma capped_le max j : capped max j <= max.
+Proof. destruct j; cbn [capped]; lia. Qed.
+
+(* after parseConnectReply: every limit is min(maximum, what the collector wrote for that category) *)
+Lemma parse_inv r e : parse_connect_reply r = Some e ->
+  forall k, 0 <= harvest_cap e k <= daemon_max k /\
+            (forall j, collector_jval r k = Some j -> harvest_cap e k = capped (daemon_max k) j).
+Proof.
+  unfold parse_connect_reply. intros H. inv_obind H. inversion H; subst e; clear H.
+  rename e0 into eh, e1 into sp.
+  assert (He : forall k, 0 <= ec_limit (cfg_of (cfgs eh) k) <= daemon_max k /\
+                         (forall x, in_ehc r = Some x -> ec_limit (cfg_of (cfgs eh) k) = capped (daemon_max k) (member x k))).
+  { destruct (in_ehc r) as [x|].
+    - destruct (unmarshal_ehc_inv x eh E) as (ms & _ & _ & Hk). intros k. destruct (Hk k) as (A & B & _).
+      split; [exact B|]. intros x' Hx. inversion Hx; subst x'. exact A.
+    - inversion E; subst eh. intros k. split; [|discriminate]. destruct k; vm_compute; split; congruence. }
+  assert (Hs : 0 <= ec_limit sp <= MaxSpanMaxEvents /\
+               (forall x, in_sehc r = Some x -> ec_limit sp = capped MaxSpanMaxEvents (s_limit x))).
+  { destruct (in_sehc r) as [x|].
+    - destruct (unmarshal_sehc_inv x sp E0) as (ms & _ & A & B & _). split; [exact B|].
+      intros x' Hx. inversion Hx; subst x'. exact A.
+    - inversion E0; subst sp. split; [cbn; vm_compute; split; congruence|discriminate]. }
+  intros k. unfold harvest_cap, combine_event_config.
+  destruct k; cbn [cfgs cfg_of c_error c_txn c_custom c_span c_log ec_limit collector_jval].
+  - destruct (He EError) as [A B]. split; [exact A|]. intros j Hj. destruct (in_ehc r) as [x|]; [|discriminate].
+    inversion Hj. apply (B x eq_refl).
+  - destruct (He ETxn) as [A B]. split; [exact A|]. intros j Hj. destruct (in_ehc r) as [x|]; [|discriminate].
+    inversion Hj. apply (B x eq_refl).
+  - destruct (He ECustom) as [A B]. split; [exact A|]. intros j Hj. destruct (in_ehc r) as [x|]; [|discriminate].
+    inversion Hj. apply (B x eq_refl).
+  - destruct Hs as [A B]. split; [exact A|]. intros j Hj. destruct (in_sehc r) as [x|]; [|discriminate].
+    inversion Hj. apply (B x eq_refl).
+  - destruct (He ELog) as [A B]. split; [exact A|]. intros j Hj. destruct (in_ehc r) as [x|]; [|discriminate].
+    inversion Hj. apply (B x eq_refl).
+Qed.
+
+Lemma parse_log_period r e x : parse_connect_reply r = Some e -> in_ehc r = Some x ->
+  exists ms, dec_uint64 (r_period x) default_period_ms = Some ms /\
+    ec_period (cfg_of (cfgs e) ELog) = match r_log x with JInt _ => report_period_of ms | _ => DefaultReportPeriod end.
+Proof.
+  unfold parse_connect_reply. intros H Hx. rewrite Hx in H. inv_obind H. inversion H; subst e; clear H.
+  destruct (unmarshal_ehc_inv x e0 E) as (ms & Hms & _ & Hk). exists ms. split; [exact Hms|].
+  destruct (Hk ELog) as (_ & _ & C). exact C.
+Qed.
+
+Lemma negotiate_inv a r e : negotiate a r = Some e ->
+  exists e0, parse_connect_reply r = Some e0 /\ e = process_log_event_limits (int_of_uint64 (a_log a)) e0.
+Proof.
+  unfold negotiate. destruct (parse_connect_reply r) as [e0|]; [|discriminate].
+  cbn [option_map]. intros H. inversion H. exists e0. split; reflexivity.
+Qed.
+
+Lemma process_log_other agent e k : k <> ELog -> harvest_cap (process_log_event_limits agent e) k = harvest_cap e k.
+Proof. intros Hk. destruct k; try reflexivity. contradiction. Qed.
+
+Lemma process_log_period agent e k :
+  ec_period (cfg_of (cfgs (process_log_event_limits agent e)) k) = ec_period (cfg_of (cfgs e) k).
+Proof. destruct k; reflexivity. Qed.
+
+Lemma process_log_log agent e :
+  harvest_cap (process_log_event_limits agent e) ELog =
+  final_log_limit agent (harvest_cap e ELog) (ec_period (cfg_of (cfgs e) ELog)).
+Proof. reflexivity. Qed.
+
+Lemma doc_max_lt_two63 k : doc_max k < two63.
+Proof. destruct k; vm_compute; reflexivity. Qed.
+
+(* C05: the capacities NewHarvest is given, for every agent setting and every connect reply *)
+Theorem event_caps a r e : negotiate a r = Some e ->
+  forall k,
+    0 <= harvest_cap e k <= doc_max k /\
+    (forall j, collector_jval r k = Some j ->
+       harvest_cap e k <= capped (doc_max k) j /\ (k <> ELog -> harvest_cap e k = capped (doc_max k) j)) /\
+    (k = ELog ->
+       let agent := int_of_uint64 (a_log a) in
+       let p := ec_period (cfg_of (cfgs e) ELog) in
+       0 <= agent -> 0 <= p ->
+       harvest_cap e ELog <= agent * p / 60000000000 /\
+       forall j, collector_jval r ELog = Some j ->
+                 harvest_cap e ELog = Z.min (capped 20000 j) (agent * p / 60000000000)).
+Proof.
+  intros H k. destruct (negotiate_inv a r e H) as (e0 & Hp & ->).
+  pose proof (parse_inv r e0 Hp) as Hk.
+  destruct (Hk k) as [[A1 A2] B]. rewrite daemon_max_doc in *.
+  destruct k; try (rewrite process_log_other by discriminate;
+                   split; [split; assumption|]; split; [|discriminate];
+                   intros j Hj; rewrite (B j Hj); split; [lia|reflexivity]).
+  rewrite process_log_log.
+  pose proof (final_log_limit_le (int_of_uint64 (a_log a)) (harvest_cap e0 ELog) (ec_period (cfg_of (cfgs e0) ELog))) as Hle.
+  pose proof (final_log_limit_nonneg (int_of_uint64 (a_log a)) (harvest_cap e0 ELog) (ec_period (cfg_of (cfgs e0) ELog)) A1) as Hnn.
+  split; [lia|]. split.
+  - intros j Hj. rewrite <- (B j Hj). split; [exact Hle|]. intros X. contradiction X. reflexivity.
+  - intros _. cbv zeta. rewrite process_log_period. intros Ha Hpp.
+    assert (Hc : harvest_cap e0 ELog < two63) by (pose proof (doc_max_lt_two63 ELog); lia).
+    split.
+    + apply final_log_limit_agent_bound; assumption.
+    + intros j Hj. rewrite final_log_limit_exact by assumption. rewrite (B j Hj). reflexivity.
+Qed.
+
+(* ---- a well-formed reply (every number a non-negative integer that fits) is accepted ---- *)
+Lemma dec_uint64_accepts j init : jval_ok_u64 j = true -> exists ms, dec_uint64 j init = Some ms.
+Proof.
+  destruct j as [| |z|]; cbn [jval_ok_u64 dec_uint64]; intros H; try discriminate; try (eexists; reflexivity).
+  unfold in_uint64. change two64 with (2 ^ 64). rewrite H. eexists; reflexivity.
+Qed.
+
+Lemma dec_int_ptr_accepts j init :
+  jval_ok_int j = true -> (forall m, init = Some m -> 0 <= m) ->
+  exists o, dec_int_ptr j init = Some o /\ forall l, o = Some l -> 0 <= l.
+Proof.
+  destruct j as [| |z|]; cbn [jval_ok_int dec_int_ptr]; intros H Hi; try discriminate.
+  - exists init. split; [reflexivity|exact Hi].
+  - exists None. split; [reflexivity|discriminate].
+  - apply andb_prop in H. destruct H as [H0 H1]. apply Z.leb_le in H0. apply Z.ltb_lt in H1.
+    assert (E : in_int64 z = true).
+    { unfold in_int64. change two63 with (2 ^ 63).
+      apply andb_true_intro. split; [apply Z.leb_le; lia|apply Z.ltb_lt; exact H1]. }
+    rewrite E. exists (Some z). split; [reflexivity|]. intros l Hl. inversion Hl. lia.
+Qed.
+
+Lemma get_event_config_accepts o rate dl dr :
+  (forall l, o = Some l -> 0 <= l) -> exists e, get_event_config o rate dl dr = Some e.
+Proof.
+  intros H. unfold get_event_config. destruct o as [l|]; [|eexists; reflexivity].
+  specialize (H l eq_refl). destruct (Z.ltb_spec l 0); [lia|]. eexists; reflexivity.
+Qed.
+
+Lemma unmarshal_ehc_accepts x :
+  jval_ok_u64 (r_period x) = true -> (forall k, jval_ok_int (member x k) = true) -> exists e, unmarshal_ehc x = Some e.
+Proof.
+  intros Hp Hk. unfold unmarshal_ehc.
+  destruct (dec_uint64_accepts (r_period x) default_period_ms Hp) as [ms ->]. cbn [obind].
+  destruct (dec_int_ptr_accepts (r_error x) None (Hk EError) ltac:(discriminate)) as (o1 & -> & P1). cbn [obind].
+  destruct (dec_int_ptr_accepts (r_txn x) None (Hk ETxn) ltac:(discriminate)) as (o2 & -> & P2). cbn [obind].
+  destruct (dec_int_ptr_accepts (r_custom x) None (Hk ECustom) ltac:(discriminate)) as (o3 & -> & P3). cbn [obind].
+  destruct (dec_int_ptr_accepts (r_span x) None (Hk ESpan) ltac:(discriminate)) as (o4 & -> & P4). cbn [obind].
+  destruct (dec_int_ptr_accepts (r_log x) None (Hk ELog) ltac:(discriminate)) as (o5 & -> & P5). cbn [obind]. cbv zeta.
+  destruct (get_event_config_accepts o1 (report_period_of ms) MaxErrorEvents DefaultReportPeriod P1) as [e1 ->]. cbn [obind].
+  destruct (get_event_config_accepts o2 (report_period_of ms) MaxTxnEvents DefaultReportPeriod P2) as [e2 ->]. cbn [obind].
+  destruct (get_event_config_accepts o3 (report_period_of ms) MaxCustomMaxEvents DefaultReportPeriod P3) as [e3 ->]. cbn [obind].
+  destruct (get_event_config_accepts o4 (report_period_of ms) MaxSpanMaxEvents DefaultReportPeriod P4) as [e4 ->]. cbn [obind].
+  destruct (get_event_config_accepts o5 (report_period_of ms) MaxLogMaxEvents DefaultReportPeriod P5) as [e5 ->]. cbn [obind].
+  eexists; reflexivity.
+Qed.
+
+Lemma unmarshal_sehc_accepts x :
+  jval_ok_u64 (s_period x) = true -> jval_ok_int (s_limit x) = true -> exists e, unmarshal_sehc x = Some e.
+Proof.
+  intros Hp Hl. unfold unmarshal_sehc.
+  destruct (dec_uint64_accepts (s_period x) default_period_ms Hp) as [ms ->]. cbn [obind].
+  destruct (dec_int_ptr_accepts (s_limit x) (Some MaxSpanMaxEvents) Hl) as (o & -> & P).
+  { intros m Hm. inversion Hm. vm_compute. congruence. }
+  cbn [obind]. apply get_event_config_accepts. exact P.
+Qed.
+
+Theorem well_formed_accepted a r : reply_well_formed r = true -> exists e, negotiate a r = Some e.
+Proof.
+  unfold reply_well_formed, negotiate, parse_connect_reply. intros H. apply andb_prop in H. destruct H as [He Hs].
+  assert (E1 : exists e, match in_ehc r with None => Some zero_ehc | Some x => unmarshal_ehc x end = Some e).
+  { destruct (in_ehc r) as [x|]; [|eexists; reflexivity].
+    repeat (apply andb_prop in He; destruct He as [He ?]).
+    apply unmarshal_ehc_accepts; [assumption|]. intros k. destruct k; assumption. }
+  assert (E2 : exists s, match in_sehc r with None => Some zero_evcfg | Some x => unmarshal_sehc x end = Some s).
+  { destruct (in_sehc r) as [x|]; [|eexists; reflexivity].
+    apply andb_prop in Hs. destruct Hs as [? ?]. apply unmarshal_sehc_accepts; assumption. }
+  destruct E1 as [e ->]. destruct E2 as [s ->]. cbn [obind option_map]. eexists; reflexivity.
+Qed.
+
+(* a negative limit anywhere in the reply: the reply is refused, no harvest is created *)
+Theorem negative_refused a r k z :
+  collector_jval r k = Some (JInt z) -> z < 0 -> negotiate a r = None.
+Proof.
+  intros Hj Hz. unfold negotiate. destruct (parse_connect_reply r) as [e|] eqn:E; [|reflexivity]. exfalso.
+  destruct (parse_inv r e E k) as [[A _] B]. specialize (B _ Hj). cbn [capped] in B.
+  pose proof (daemon_max_nonneg k). lia.
+Qed.
+
+(* periods: milliseconds of the reply to nanoseconds, without wrap-around below 2^43 ms *)
+Lemma report_period_of_small ms : 0 < ms < 9223372036854 -> report_period_of ms = ms * 1000000.
+Proof.
+  intros H. unfold report_period_of. destruct (Z.eqb_spec ms 0); [lia|].
+  unfold duration_of_ms, millisecond. rewrite (wrap64_small ms) by (rewrite two63_val; lia).
+  apply wrap64_small. rewrite two63_val. lia.
+Qed.
+
+Lemma scaled_ms agent ms : agent * (ms * 1000000) / 60000000000 = agent * ms / 60000.
+Proof.
+  replace (agent * (ms * 1000000)) with (agent * ms * 1000000) by ring.
+  change 60000000000 with (60000 * 1000000). apply Z.div_mul_cancel_r; lia.
+Qed.
+
+(* what a reservoir created with that capacity can hold *)
+Lemma reservoir_holds cap ops : 0 <= cap ->
+  Z.of_nat (length (items (run_res (Z.to_nat cap) ops))) <= cap.
+Proof. intros H. pose proof (reservoir_len_le_cap (Z.to_nat cap) ops). lia. Qed.
+
+(* ================================================================== metric table *)
+(* the capacity of the table a build yields: that of the table everything was added / merged INTO *)
+Fixpoint base_max (b : build) : Z :=
+  match b with
+  | BNew max => max
+  | BAdds b _ | BTxn b _ _ | BMerge b _ | BMergeFailed b _ | BRules b _ => base_max b
+  end.
+
+Lemma merge_entries_max t os : tmax (merge_entries t os) = tmax t.
+Proof. rewrite merge_entries_foldg. apply foldg_max. Qed.
+
+Lemma builds_max b t r : builds b t r -> tmax t = base_max b.
+Proof.
+  induction 1 as [max|b t r l _ IH|b t r txn ms _ IH|b f t tf r rf ord _ IHb _ IHf Hp
+                 |b f t tf r rf ord _ IHb _ IHf Hp|b t r _ IH|b t r rn ord _ IH Hp]; cbn [base_max].
+  - reflexivity.
+  - rewrite add_ops_foldg, foldg_max. exact IH.
+  - rewrite aggregate_metrics_foldg, foldg_max. exact IH.
+  - unfold merge_ord. rewrite merge_entries_max. exact IHb.
+  - rewrite merge_failed_ord_spec. destruct (FailedMetricAttemptsLimit <? tfailed tf + 1); [exact IHb|].
+    rewrite merge_entries_max. exact IHb.
+  - exact IH.
+  - rewrite apply_rules_ord_foldg. exact IH.
+Qed.
+
+(* C05: a table created with the daemon's MaxMetrics never holds more than 2000 unforced metrics, whatever
+   is added, merged, carried over from failed harvests or renamed, under every map iteration order; a forced
+   metric offered to it is never refused; numDropped counts exactly the refused offers and a refusal leaves
+   the table as it was; count is the number of metrics held *)
+Theorem metric_bound b t r : builds b t r -> base_max b = MaxMetrics ->
+  unforced_count t <= 2000 /\
+  tcount t = Z.of_nat (length (entries t)) /\
+  (forall k m, forced m = true ->
+     tdropped (merge_metric t k m) = tdropped t /\
+     get k (merge_metric t k m) = oplus (get k t) (Some (data m))) /\
+  (forall k m, refuses t k m = true ->
+     entries (merge_metric t k m) = entries t /\ tcount (merge_metric t k m) = tcount t /\
+     tdropped (merge_metric t k m) = tdropped t + 1 /\ 2000 <= tcount t /\ forced m = false /\ get k t = None) /\
+  (forall os, tdropped (merge_entries t os) = tdropped t + count_refused t os).
+Proof.
+  intros Hb Hm. pose proof (builds_max b t r Hb) as Ht. rewrite Hm in Ht.
+  split; [pose proof (metrics_unforced_bound b t r Hb) as H; rewrite Ht in H; exact H|].
+  split; [apply (metrics_count_is_len b t r Hb)|].
+  split; [intros k m Hf; apply metrics_forced_never_refused; exact Hf|].
+  split; [|intros os; apply metrics_dropped_exact].
+  intros k m Hr. pose proof (metrics_refusal_is_noop t k m Hr) as H. rewrite Ht in H. exact H.
+Qed.
+
+(* ---- the forced flag of an entry is that of the FIRST contribution to its key.  A contribution made with
+   Forced to a key that already holds an unforced entry is aggregated into it (it is not refused: the key
+   exists), but the entry stays unforced; when such an entry is carried over by MergeFailed into a table that
+   is full, the whole entry, forced contribution included, is refused.  Witness with capacity 1: *)
+Definition mixed_a : build :=      (* harvest A: "x" first unforced, then forced *)
+  BAdds (BNew 1) [ACount ([120%N], []) false 1; ACount ([120%N], []) true 1].
+Definition mixed_b : build :=      (* harvest B is full with "y"; A's delivery failed and is carried over *)
+  BMergeFailed (BAdds (BNew 1) [ACount ([121%N], []) false 1]) mixed_a.
+
+Lemma forced_contribution_in_unforced_entry_witness :
+  In (C ([120%N], []) true (count_data 1)) (contribs FailedMetricAttemptsLimit mixed_b) /\
+  get ([120%N], []) (exec mixed_a) = Some (count_data 2) /\        (* both contributions were taken ... *)
+  get ([120%N], []) (exec mixed_b) = None /\                       (* ... and both are gone *)
+  tdropped (exec mixed_b) = 1 /\
+  (exists r, builds mixed_b (exec mixed_b) r).
+Proof.
+  split; [vm_compute; auto|]. split; [vm_compute; reflexivity|]. split; [vm_compute; reflexivity|].
+  split; [vm_compute; reflexivity|]. apply exec_builds.
+Qed.
+
+(* ================================================================== forced-only keys *)
+(* ---- keys that only ever receive forced contributions never lose anything ---- *)
+Definition all_forced (cs : list contrib) (k : key) : Prop := forall c, In c cs -> ckey c = k -> cforced c = true.
+Definition flag_ok (k : key) (t : table) : Prop := forall e, lookup k (entries t) = Some e -> forced e = true.
+
+Lemma all_forced_app cs1 cs2 k : all_forced (cs1 ++ cs2) k <-> all_forced cs1 k /\ all_forced cs2 k.
+Proof.
+  unfold all_forced. split.
+  - intros H. split; intros c Hc; apply H; apply in_or_app; auto.
+  - intros [H1 H2] c Hc. apply in_app_or in Hc. destruct Hc; auto.
+Qed.
+
+Lemma lookup_merge_metric t k m k' :
+  lookup k' (entries (merge_metric t k m)) =
+  if refuses t k m then lookup k' (entries t)
+  else if key_eqb k k'
+       then Some (match lookup k (entries t) with Some e => ME (forced e) (Metrics.aggregate (data e) (data m)) | None => m end)
+       else lookup k' (entries t).
+Proof.
+  destruct (refuses t k m) eqn:E.
+  - rewrite merge_metric_refused by exact E. reflexivity.
+  - rewrite merge_metric_taken by exact E. cbn [entries]. destruct (key_eqb k k') eqn:E2.
+    + apply key_eqb_eq in E2. subst k'. apply lookup_upsert_same.
+    + apply key_eqb_neq in E2. apply lookup_upsert_other. congruence.
+Qed.
+
+Lemma flag_merge_metric t k m k' : flag_ok k' t -> (k = k' -> forced m = true) -> flag_ok k' (merge_metric t k m).
+Proof.
+  intros Hf Hm e. rewrite lookup_merge_metric. destruct (refuses t k m); [apply Hf|].
+  destruct (key_eqb k k') eqn:E; [|apply Hf].
+  apply key_eqb_eq in E. subst k'. intros He. inversion He; subst e; clear He.
+  destruct (lookup k (entries t)) as [e0|] eqn:El; cbn [forced]; [apply Hf; exact El|apply Hm; reflexivity].
+Qed.
+
+Lemma get_merge_metric_forced t k m k' : (k = k' -> forced m = true) ->
+  get k' (merge_metric t k m) = if key_eqb k k' then oplus (get k' t) (Some (data m)) else get k' t.
+Proof.
+  intros Hm. rewrite merge_metric_get. destruct (refuses t k m) eqn:E.
+  - destruct (key_eqb k k') eqn:E2; [|reflexivity].
+    apply key_eqb_eq in E2. rewrite (forced_never_refused t k m (Hm E2)) in E. discriminate.
+  - destruct (key_eqb k k') eqn:E2; [|reflexivity]. apply key_eqb_eq in E2. subst k'. reflexivity.
+Qed.
+
+Lemma foldg_forced g os k' : forall t,
+  (forall ke, In ke os -> g (fst ke) = k' -> forced (snd ke) = true) -> flag_ok k' t ->
+  get k' (foldg g t os) = oplus (get k' t) (msum (map (fun ke => ent_at k' (g (fst ke), snd ke)) os)) /\
+  flag_ok k' (foldg g t os).
+Proof.
+  induction os as [|ke os IH]; intros t Hos Hf.
+  - cbn [foldg fold_left map]. split; [symmetry; apply oplus_none_r|exact Hf].
+  - rewrite foldg_cons.
+    assert (Hke : g (fst ke) = k' -> forced (snd ke) = true) by (apply Hos; left; reflexivity).
+    destruct (IH (merge_metric t (g (fst ke)) (snd ke))) as [A B].
+    + intros x Hx. apply Hos. right. exact Hx.
+    + apply flag_merge_metric; assumption.
+    + split; [|exact B]. rewrite A. rewrite (get_merge_metric_forced t (g (fst ke)) (snd ke) k' Hke).
+      cbn [map]. rewrite msum_cons. unfold ent_at at 2. cbn [fst snd].
+      destruct (key_eqb (g (fst ke)) k'); [rewrite oplus_assoc; reflexivity|reflexivity].
+Qed.
+
+Lemma offers_forced cs k : all_forced cs k ->
+  forall ke, In ke (map offer_of cs) -> (fun x : key => x) (fst ke) = k -> forced (snd ke) = true.
+Proof.
+  intros H ke Hin Hk. apply in_map_iff in Hin. destruct Hin as [c [<- Hc]]. cbn [offer_of fst snd forced] in *.
+  apply H; assumption.
+Qed.
+
+Lemma get_same_entries t t' k : entries t = entries t' -> get k t = get k t'.
+Proof. unfold get. intros ->. reflexivity. Qed.
+Lemma flag_same_entries t t' k : entries t = entries t' -> flag_ok k t -> flag_ok k t'.
+Proof. unfold flag_ok. intros ->. auto. Qed.
+
+(* regrouping under a renaming, for one target key: only the entries renamed to it matter *)
+Lemma rename_sum_at rn l cs k' : NoDup (keys l) ->
+  (forall k, rkey rn k = k' -> lget k l = combined cs k) ->
+  msum (map (fun ke => ent_at k' (rkey rn (fst ke), snd ke)) l) = combined (map (rename_contrib rn) cs) k'.
+Proof.
+  intros Hnd Hget.
+  rewrite (msum_map_ext _ (fun ke => msum (map (fun c => if key_eqb (rkey rn (fst ke)) k' then at_key (fst ke) c else None) cs))).
+  2:{ intros [k e] Hin. cbn [fst snd]. unfold ent_at. cbn [fst snd].
+      destruct (key_eqb (rkey rn k) k') eqn:E.
+      - apply key_eqb_eq in E. pose proof (Hget k E) as Hk. unfold lget in Hk.
+        rewrite (in_entries_lookup k e l Hnd Hin) in Hk. cbn [option_map] in Hk. rewrite Hk. reflexivity.
+      - symmetry. apply msum_all_none. reflexivity. }
+  rewrite (msum_swap (fun (ke : key * mentry) (c : contrib) =>
+            if key_eqb (rkey rn (fst ke)) k' then at_key (fst ke) c else None) l cs).
+  unfold combined. rewrite map_map.
+  apply msum_map_ext. intros c Hc.
+  unfold at_key at 2. cbn [rename_contrib ckey cdata].
+  change (rn (fst (ckey c)), snd (ckey c)) with (rkey rn (ckey c)).
+  destruct (key_eqb (rkey rn (ckey c)) k') eqn:Ec.
+  - (* c is renamed to k': exactly the entry at its key counts it *)
+    apply key_eqb_eq in Ec.
+    rewrite (msum_map_ext _ (fun ke : key * mentry => if key_eqb (fst ke) (ckey c) then Some (cdata c) else None)).
+    2:{ intros [k e] Hin. cbn [fst]. unfold at_key. rewrite (key_eqb_sym (ckey c) k).
+        destruct (key_eqb k (ckey c)) eqn:E.
+        - apply key_eqb_eq in E. subst k. rewrite (proj2 (key_eqb_eq _ _) Ec). reflexivity.
+        - destruct (key_eqb (rkey rn k) k'); reflexivity. }
+    apply msum_indicator; [exact Hnd|].
+    destruct (combined_in_some cs c Hc) as [d Hd]. rewrite <- (Hget (ckey c) Ec) in Hd. unfold lget in Hd.
+    destruct (lookup (ckey c) l) eqn:El; [|discriminate]. eapply lookup_some_in. exact El.
+  - (* c is renamed elsewhere: no entry renamed to k' holds it *)
+    apply msum_all_none. intros [k e] Hin. cbn [fst]. destruct (key_eqb (rkey rn k) k') eqn:E; [|reflexivity].
+    unfold at_key. destruct (key_eqb (ckey c) k) eqn:E2; [|reflexivity].
+    apply key_eqb_eq in E2. subst k. congruence.
+Qed.
+
+
+Theorem forced_keys_keep_all b t r : builds b t r ->
+  forall k, all_forced (contribs LIM b) k -> get k t = combined (contribs LIM b) k /\ flag_ok k t.
+Proof.
+  induction 1 as [max|b t r l Hb IH|b t r txn ms Hb IH|b f t tf r rf ord Hb IHb Hf IHf Hp
+                 |b f t tf r rf ord Hb IHb Hf IHf Hp|b t r Hb IH|b t r rn ord Hb IH Hp]; intros k Hk.
+  - split; [reflexivity|]. intros e He. discriminate He.
+  - cbn [contribs] in *. apply all_forced_app in Hk. destruct Hk as [Hk1 Hk2]. destruct (IH k Hk1) as [A B].
+    rewrite add_ops_foldg.
+    destruct (foldg_forced (fun x => x) (map offer_of (map aop_contrib l)) k t (offers_forced _ k Hk2) B) as [C D].
+    split; [|exact D]. rewrite C, A, msum_offers, combined_app. reflexivity.
+  - cbn [contribs] in *. apply all_forced_app in Hk. destruct Hk as [Hk1 Hk2]. destruct (IH k Hk1) as [A B].
+    rewrite aggregate_metrics_foldg.
+    destruct (foldg_forced (fun x => x) (map offer_of (flat_map (tmetric_contribs txn) ms)) k t (offers_forced _ k Hk2) B) as [C D].
+    split; [|exact D]. rewrite C, A, msum_offers, combined_app. reflexivity.
+  - cbn [contribs] in *. apply all_forced_app in Hk. destruct Hk as [Hk1 Hk2].
+    destruct (IHb k Hk1) as [A B]. destruct (IHf k Hk2) as [Af Bf].
+    destruct (builds_spec _ _ _ Hf) as ([Hnd _] & _).
+    unfold merge_ord. rewrite merge_entries_foldg.
+    assert (Ho : forall ke, In ke ord -> (fun x : key => x) (fst ke) = k -> forced (snd ke) = true).
+    { intros [k0 e0] Hin Hk0. cbn [fst snd] in *. subst k0. apply Bf.
+      apply in_entries_lookup; [exact Hnd|]. eapply Permutation_in; [exact Hp|exact Hin]. }
+    destruct (foldg_forced (fun x => x) ord k t Ho B) as [C D]. split; [|exact D].
+    rewrite C, A. rewrite (msum_entries_perm k ord (entries tf) Hp Hnd). fold (get k tf). rewrite <- get_lget, Af.
+    rewrite combined_app. reflexivity.
+  - destruct (builds_spec _ _ _ Hf) as ([Hnd _] & _ & Hfl & _).
+    rewrite merge_failed_ord_spec. cbn [contribs] in Hk |- *. rewrite <- Hfl in *.
+    destruct (LIM <? tfailed tf + 1).
+    + apply IHb. exact Hk.
+    + apply all_forced_app in Hk. destruct Hk as [Hk1 Hk2].
+      destruct (IHb k Hk1) as [A B]. destruct (IHf k Hk2) as [Af Bf].
+      set (t0 := T (tmax t) (tcount t) (tdropped t) (Z.max (tfailed t) (tfailed tf + 1)) (entries t)).
+      assert (B0 : flag_ok k t0) by (apply (flag_same_entries t t0 k eq_refl B)).
+      rewrite merge_entries_foldg.
+      assert (Ho : forall ke, In ke ord -> (fun x : key => x) (fst ke) = k -> forced (snd ke) = true).
+      { intros [k0 e0] Hin Hk0. cbn [fst snd] in *. subst k0. apply Bf.
+        apply in_entries_lookup; [exact Hnd|]. eapply Permutation_in; [exact Hp|exact Hin]. }
+      destruct (foldg_forced (fun x => x) ord k t0 Ho B0) as [C D]. split; [|exact D].
+      rewrite C. rewrite (get_same_entries t0 t k eq_refl), A.
+      rewrite (msum_entries_perm k ord (entries tf) Hp Hnd). rewrite <- get_lget, Af.
+      rewrite combined_app. reflexivity.
+  - cbn [contribs] in *. apply IH. exact Hk.
+  - cbn [contribs] in *.
+    destruct (builds_spec _ _ _ Hb) as ([Hnd Hc] & _).
+    pose proof (apply_rules_conserves rn t ord (conj Hnd Hc) Hp) as Hcons. cbv zeta in Hcons.
+    destruct Hcons as (_ & _ & _ & _ & Hget & _).
+    (* every key renamed to k only ever received forced contributions *)
+    assert (Hpre : forall k0, rkey rn k0 = k -> all_forced (contribs LIM b) k0).
+    { intros k0 Hk0 c Hcin Hck. apply (Hk (rename_contrib rn c)).
+      - apply in_map. exact Hcin.
+      - cbn [rename_contrib ckey]. rewrite <- Hk0, <- Hck. reflexivity. }
+    split.
+    + rewrite Hget. apply rename_sum_at; [exact Hnd|].
+      intros k0 Hk0. rewrite <- get_lget. apply (IH k0 (Hpre k0 Hk0)).
+    + rewrite apply_rules_ord_foldg. cbv zeta.
+      set (t0 := T (if tmax t <? tcount t then tcount t else tmax t) 0 0 (tfailed t) []).
+      assert (B0 : flag_ok k t0) by (intros e He; discriminate He).
+      assert (Ho : forall ke, In ke ord -> rkey rn (fst ke) = k -> forced (snd ke) = true).
+      { intros [k0 e0] Hin Hk0. cbn [fst snd] in *. apply (proj2 (IH k0 (Hpre k0 Hk0))).
+        apply in_entries_lookup; [exact Hnd|]. eapply Permutation_in; [exact Hp|exact Hin]. }
+      destruct (foldg_forced (rkey rn) ord k t0 Ho B0) as [_ D].
+      intros e He. apply D. exact He.
+Qed.
+
+(* the guard is met by a concrete build that overflows, and the conclusion is informative there *)
+Example forced_keys_example :
+  let b := BAdds (BNew 1) [ACount ([1%N], []) false 1; ACount ([2%N], []) true 1; ACount ([3%N], []) false 1; ACount ([2%N], []) true 4] in
+  all_forced (contribs LIM b) ([2%N], []) /\ get ([2%N], []) (exec b) = Some (count_data 5) /\ tdropped (exec b) = 1.
+Proof.
+  cbv zeta. split; [|split; vm_compute; reflexivity].
+  intros c Hc Hk. cbn in Hc. destruct Hc as [<-|[<-|[<-|[<-|[]]]]]; cbn in *; try reflexivity; inversion Hk.
+Qed.
+
+(* ================================================================== application cap *)
+Open Scope nat_scope.
+(* ---- the application table never grows except through the guarded branch of processAppInfo ---- *)
+Definition napps (s : proc) : nat := length (p_apps s).
+
+Lemma removeN_length {A} k (l : list (N * A)) : length (removeN k l) <= length l.
+Proof. induction l as [|[k' v] l IH]; cbn [removeN length]; [lia|]. destruct (k' =? k)%N; cbn [length]; lia. Qed.
+
+Lemma consider_connect_apps s i : p_apps (fst (consider_connect s i)) = p_apps s.
+Proof. unfold consider_connect. destruct (needs_connect (get_obj s i) (p_now s)); reflexivity. Qed.
+
+Lemma app_info_apps s key dt id :
+  napps (fst (app_info s key dt id)) <= Nat.max (napps s) app_limit.
+Proof.
+  unfold app_info, napps.
+  destruct (match id with Some r => match lookupN r (p_runs s) with Some _ => true | None => false end | None => false end);
+    [cbn [fst]; lia|].
+  destruct (lookupN key (p_apps s)) as [i|].
+  - match goal with |- context [consider_connect ?S ?I] =>
+      pose proof (consider_connect_apps S I) as E; destruct (consider_connect S I) as [s2 o] end.
+    cbn [fst] in *. rewrite E. cbn. lia.
+  - destruct (Nat.leb app_limit (length (p_apps s))) eqn:L; [cbn [fst]; lia|].
+    apply Nat.leb_gt in L.
+    match goal with |- context [consider_connect ?S ?I] =>
+      pose proof (consider_connect_apps S I) as E; destruct (consider_connect S I) as [s2 o] end.
+    cbn [fst] in *. rewrite E. cbn [p_apps with_apps with_objs length]. lia.
+Qed.
+
+Lemma connect_failed_apps s key f : p_apps (connect_failed s key f) = p_apps s.
+Proof.
+  unfold connect_failed. destruct (lookupN key (p_apps s)) as [i|]; [|reflexivity].
+  destruct (negb (astate_eqb (a_state (get_obj s i)) SUnknown)); [reflexivity|].
+  destruct f as [[]|]; reflexivity.
+Qed.
+
+Lemma connect_ok_apps s key host r : p_apps (connect_ok s key host r) = p_apps s.
+Proof.
+  unfold connect_ok. destruct (lookupN key (p_apps s)) as [i|]; [|reflexivity].
+  destruct (negb (astate_eqb (a_state (get_obj s i)) SUnknown)); reflexivity.
+Qed.
+
+Lemma pre_reply_apps s n o : p_apps (fst (pre_reply s n o)) = p_apps s.
+Proof.
+  unfold pre_reply. destruct (nth_error (p_conns s) n) as [c|]; [|reflexivity].
+  destruct (ca_stage c); [|reflexivity].
+  destruct o; cbn [fst]; [reflexivity| |]; rewrite connect_failed_apps; reflexivity.
+Qed.
+
+Lemma conn_reply_apps s n o : p_apps (fst (conn_reply s n o)) = p_apps s.
+Proof.
+  unfold conn_reply. destruct (nth_error (p_conns s) n) as [c|]; [|reflexivity].
+  destruct (ca_stage c); [reflexivity|].
+  destruct o; cbn [fst]; [rewrite connect_ok_apps| | |]; try rewrite connect_failed_apps; reflexivity.
+Qed.
+
+Lemma txn_data_apps s run t : p_apps (fst (txn_data s run t)) = p_apps s.
+Proof.
+  unfold txn_data. destruct (lookupN run (p_runs s)) as [ahid|]; [|reflexivity].
+  destruct (aggregate (ah_h (get_ah s ahid)) t) as [[h' refused] overwritten]. reflexivity.
+Qed.
+
+Lemma emit_cat_apps s e c bag seen failed cap internal :
+  p_apps (fst (emit_cat s e c bag seen failed cap internal)) = p_apps s.
+Proof.
+  unfold emit_cat.
+  destruct (match c with CMetrics => match bag with [] => negb internal | _ => false end
+                      | _ => match bag with [] => true | _ => false end end); [reflexivity|].
+  destruct (cat_eqb c CTxnEv && e_dt e && (split_threshold <=? lenN bag)%N); reflexivity.
+Qed.
+
+Lemma emit_cats_apps e h cs : forall s, p_apps (fst (emit_cats s e h cs)) = p_apps s.
+Proof.
+  induction cs as [|c r IH]; intros s; cbn [emit_cats]; [reflexivity|].
+  pose proof (emit_cat_apps s e c (h_bag h c) (h_seen h c) (h_failed h c) (h_cap h c) (h_internal h)) as E1.
+  destruct (emit_cat s e c (h_bag h c) (h_seen h c) (h_failed h c) (h_cap h c) (h_internal h)) as [s1 q1].
+  pose proof (IH s1) as E2. destruct (emit_cats s1 e h r) as [s2 q2]. cbn [fst] in *. congruence.
+Qed.
+
+Lemma filter_harvest_pkgs_apps s appi h : p_apps (fst (filter_harvest_pkgs s appi h)) = p_apps s.
+Proof.
+  unfold filter_harvest_pkgs. destruct (h_haspkgs h); [|reflexivity].
+  destruct (filter_pkgs (a_seen_pkgs (get_obj s appi)) (h_bag h CPkgs)) as [[newp oldp] seen']. reflexivity.
+Qed.
+
+Lemma register_apps s qs : p_apps (register s qs) = p_apps s.
+Proof. reflexivity. Qed.
+
+Lemma usage_request_apps s e : p_apps (fst (usage_request s e)) = p_apps s.
+Proof. unfold usage_request. destruct (Nat.eqb (p_ubuf s) 0); reflexivity. Qed.
+
+Lemma event_step_apps ty caps e acc cb :
+  p_apps (fst (fst (event_step ty caps e acc cb))) = p_apps (fst (fst acc)).
+Proof.
+  unfold event_step. destruct acc as [[sa ha] qa]. destruct cb as [c bit].
+  destruct (has_bits ty bit && negb (caps c =? 0)%N); [|reflexivity].
+  pose proof (emit_cat_apps sa e c (h_bag ha c) (h_seen ha c) (h_failed ha c) (h_cap ha c) false) as E.
+  destruct (emit_cat sa e c (h_bag ha c) (h_seen ha c) (h_failed ha c) (h_cap ha c) false) as [sb q].
+  cbn [fst] in *. exact E.
+Qed.
+
+Lemma event_steps_apps ty caps e l : forall acc,
+  p_apps (fst (fst (fold_left (event_step ty caps e) l acc))) = p_apps (fst (fst acc)).
+Proof.
+  induction l as [|cb l IH]; intros acc; cbn [fold_left]; [reflexivity|].
+  rewrite IH. apply event_step_apps.
+Qed.
+
+Lemma default_stage_apps s e appi h dflt : p_apps (fst (fst (default_stage s e appi h dflt))) = p_apps s.
+Proof.
+  unfold default_stage. destruct dflt; [|reflexivity].
+  pose proof (filter_harvest_pkgs_apps s appi (final_metrics h)) as E1.
+  destruct (filter_harvest_pkgs s appi (final_metrics h)) as [s1 hp].
+  pose proof (emit_cats_apps e hp default_order s1) as E2.
+  destruct (emit_cats s1 e hp default_order) as [s2 qs]. cbn [fst] in *. congruence.
+Qed.
+
+Lemma harvest_by_type_apps s ahid ty : p_apps (fst (harvest_by_type s ahid ty)) = p_apps s.
+Proof.
+  unfold harvest_by_type. cbv zeta.
+  set (s0 := with_next s (S (p_next s))).
+  set (ah := get_ah s ahid). set (a := get_obj s (ah_app ah)).
+  set (e := ctx_of s0 ah (p_next s)).
+  assert (E0 : p_apps s0 = p_apps s) by reflexivity.
+  destruct (has_bits ty HarvestBits_gen.HarvestAll).
+  - pose proof (filter_harvest_pkgs_apps (put_ah_h s0 ahid (new_harvest (cur_caps a))) (ah_app ah) (ah_h ah)) as E1.
+    destruct (filter_harvest_pkgs (put_ah_h s0 ahid (new_harvest (cur_caps a))) (ah_app ah) (ah_h ah)) as [s2 h1].
+    pose proof (emit_cats_apps e (final_metrics h1) all_order s2) as E2.
+    destruct (emit_cats s2 e (final_metrics h1) all_order) as [s3 qs].
+    cbn [fst] in *.
+    destruct (Nat.eqb (length qs) 0).
+    + pose proof (usage_request_apps (register s3 qs) e) as E3.
+      destruct (usage_request (register s3 qs) e) as [s5 u]. cbn [fst] in *.
+      rewrite register_apps, E3, register_apps, E2, E1. reflexivity.
+    + cbn [fst p_apps with_groups]. rewrite register_apps, E2, E1. reflexivity.
+  - pose proof (default_stage_apps s0 e (ah_app ah) (ah_h ah) (has_bits ty HarvestBits_gen.HarvestDefaultData)) as E1.
+    destruct (default_stage s0 e (ah_app ah) (ah_h ah) (has_bits ty HarvestBits_gen.HarvestDefaultData)) as [[s1 h1] qs1].
+    pose proof (event_steps_apps ty (cur_caps a) e event_order (s1, h1, qs1)) as E2.
+    destruct (fold_left (event_step ty (cur_caps a) e) event_order (s1, h1, qs1)) as [[s2 h2] qs2].
+    cbn [fst] in *.
+    assert (E3 : p_apps (register (put_ah_h s2 ahid h2) qs2) = p_apps s) by (rewrite register_apps; cbn; congruence).
+    destruct (Nat.eqb (length qs2) 0).
+    + destruct (has_bits ty HarvestBits_gen.HarvestDefaultData && negb (harvest_empty (ah_h ah))).
+      * pose proof (usage_request_apps (register (put_ah_h s2 ahid h2) qs2) e) as E4.
+        destruct (usage_request (register (put_ah_h s2 ahid h2) qs2) e) as [s4 u]. cbn [fst] in *.
+        rewrite register_apps, E4. exact E3.
+      * cbn [fst]. exact E3.
+    + cbn [fst p_apps with_groups]. exact E3.
+Qed.
+
+Lemma tick_apps s ahid ty : napps (fst (tick s ahid ty)) <= napps s.
+Proof.
+  unfold tick, napps. destruct (Nat.leb (length (p_ahs s)) ahid); [cbn [fst]; lia|].
+  destruct (inactive (get_obj s (ah_app (get_ah s ahid))) (p_now s)).
+  - cbn [fst p_apps with_apps]. apply removeN_length.
+  - rewrite harvest_by_type_apps. lia.
+Qed.
+
+Lemma harvest_error_apps s q f : p_apps (fst (harvest_error s q f)) = p_apps s.
+Proof.
+  unfold harvest_error. destruct (lookupN (rq_run q) (p_runs s)) as [ahid|]; [|reflexivity].
+  cbv zeta.
+  set (s1 := if should_save f then _ else _).
+  assert (E1 : p_apps s1 = p_apps s).
+  { subst s1. destruct (should_save f); [|reflexivity].
+    destruct (Processor.merge_failed (ah_h (get_ah s ahid)) (cat_of q) q) as [[h1 refused] given_up]. reflexivity. }
+  clearbody s1.
+  destruct f; try (cbn [fst]; exact E1);
+    try (destruct (astate_eqb (a_state (get_obj s1 (ah_app (get_ah s ahid)))) SDisconnected); [cbn [fst]; exact E1|]);
+    try (rewrite consider_connect_apps; exact E1);
+    try (destruct (astate_eqb (a_state (get_obj s1 (ah_app (get_ah s ahid)))) SRestart);
+         [rewrite consider_connect_apps; exact E1|cbn [fst]; exact E1]).
+Qed.
+
+Lemma group_done_apps s gid : p_apps (fst (group_done s gid)) = p_apps s.
+Proof.
+  unfold group_done. destruct (find (fun g => Nat.eqb (g_id g) gid) (p_groups s)) as [g|]; [|reflexivity].
+  destruct (Nat.eqb (g_pending g) 1); [|reflexivity].
+  destruct (g_usage g); [|reflexivity].
+  match goal with |- context [usage_request ?S ?E] =>
+    pose proof (usage_request_apps S E) as E1; destruct (usage_request S E) as [s2 u] end.
+  cbn [fst] in *. rewrite register_apps. exact E1.
+Qed.
+
+Lemma reply_apps s n o : p_apps (fst (reply s n o)) = p_apps s.
+Proof.
+  unfold reply. destruct (nth_error (p_reqs s) n) as [q|]; [|reflexivity].
+  cbv zeta. set (s0 := add_usage _).
+  assert (E0 : p_apps s0 = p_apps s) by reflexivity. clearbody s0.
+  assert (E1 : p_apps (fst (match o with OOk => (ghost_ack s0 (tags (rq_items q)), []) | OFail f => harvest_error s0 q f end)) = p_apps s).
+  { destruct o; [exact E0|]. rewrite harvest_error_apps. exact E0. }
+  destruct (match o with OOk => (ghost_ack s0 (tags (rq_items q)), []) | OFail f => harvest_error s0 q f end) as [s1 o1].
+  cbn [fst] in E1.
+  destruct (rq_kind q); try exact E1.
+  pose proof (group_done_apps s1 (rq_group q)) as E2. destruct (group_done s1 (rq_group q)) as [s2 o2].
+  cbn [fst] in *. congruence.
+Qed.
+
+Lemma flush_run_apps outs acc ra : napps (fst (flush_run outs acc ra)) <= napps (fst acc).
+Proof.
+  unfold flush_run, napps. destruct acc as [s o]. cbv zeta.
+  destruct (Nat.leb (length (p_ahs s)) (snd ra)); [cbn [fst]; lia|].
+  destruct (inactive (get_obj s (ah_app (get_ah s (snd ra)))) (p_now s)).
+  - cbn [fst p_apps with_apps]. apply removeN_length.
+  - match goal with |- context [filter_harvest_pkgs ?S ?I ?H] =>
+      pose proof (filter_harvest_pkgs_apps S I H) as E1; destruct (filter_harvest_pkgs S I H) as [s2 h1] end.
+    match goal with |- context [emit_cats ?S ?E ?H ?C] =>
+      pose proof (emit_cats_apps E H C S) as E2; destruct (emit_cats S E H C) as [s3 qs] end.
+    cbn [fst] in *.
+    match goal with |- context [fold_left ?F qs ?S0] =>
+      assert (E3 : forall l sa, p_apps (fold_left F l sa) = p_apps sa)
+    end.
+    { induction l as [|q l IH]; intros sa; cbn [fold_left]; [reflexivity|]. rewrite IH.
+      destruct (outs (rq_run q) (cat_of q)); reflexivity. }
+    rewrite E3. cbn [p_apps ghost_sent]. rewrite E2, E1. cbn. lia.
+Qed.
+
+Lemma clean_exit_apps s outs : napps (fst (clean_exit s outs)) <= napps s.
+Proof.
+  unfold clean_exit.
+  assert (H : forall l acc, napps (fst (fold_left (flush_run outs) l acc)) <= napps (fst acc)).
+  { induction l as [|ra l IH]; intros acc; cbn [fold_left]; [lia|].
+    eapply Nat.le_trans; [apply IH|apply flush_run_apps]. }
+  specialize (H (p_runs s) (s, [])). destruct (fold_left (flush_run outs) (p_runs s) (s, [])) as [s1 o].
+  cbn [fst] in *. exact H.
+Qed.
+
+Lemma step_apps s o : napps (fst (step s o)) <= Nat.max (napps s) app_limit.
+Proof.
+  unfold step. destruct (p_quit s); [cbn [fst]; lia|].
+  destruct o as [key dt id|run t|n po|n co|ah ty|n oc|c oc|dt|outs].
+  - apply app_info_apps.
+  - unfold napps. rewrite txn_data_apps. lia.
+  - unfold napps. rewrite pre_reply_apps. lia.
+  - unfold napps. rewrite conn_reply_apps. lia.
+  - pose proof (tick_apps s ah ty). lia.
+  - unfold napps. rewrite reply_apps. lia.
+  - destruct (find_index (req_is c) (p_reqs s) 0) as [n|]; [|cbn [fst]; lia].
+    unfold napps. rewrite reply_apps. lia.
+  - cbn [fst]. unfold napps. cbn. lia.
+  - pose proof (clean_exit_apps s outs). lia.
+Qed.
+
+Lemma run_from_apps ops : forall s, napps s <= app_limit -> napps (fst (run_from s ops)) <= app_limit.
+Proof.
+  induction ops as [|o r IH]; intros s H; cbn [run_from]; [exact H|].
+  pose proof (step_apps s o) as Hs. destruct (step s o) as [s1 out1]. cbn [fst] in Hs.
+  specialize (IH s1 ltac:(lia)). destruct (run_from s1 r) as [s2 outs]. cbn [fst] in *. exact IH.
+Qed.
+
+(* C05: never more than 250 applications, on every history *)
+Theorem apps_le_limit ops : length (p_apps (fst (run ops))) <= 250.
+Proof.
+  change 250 with app_limit. apply (run_from_apps ops init). cbn. lia.
+Qed.
+
+(* and each intermediate state too: every prefix of a history is a history *)
+Example apps_example :
+  let ops := map (fun k => OAppInfo (N.of_nat k) false None) (seq 1 4) in
+  length (p_apps (fst (run ops))) = 4.
+Proof. vm_compute. reflexivity. Qed.
+Open Scope Z_scope.
+
+(* ================================================================== exact counting *)
+Definition adds_only (op : rop) : Prop := match op with OAdd _ | OAddSynth _ => True | _ => False end.
+
+(* numSeen = everything offered (a merged reservoir counts for what it had seen, a given-up one for nothing);
+   held = min(capacity, offered); the payload header reports exactly these numbers; the halves of Split
+   partition the events, their events_seen add up to the original's and each half's header is consistent *)
+Theorem counts_exact K ops :
+  let r := run_res K ops in
+  seen r = seen_total ops /\
+  length (items r) = Nat.min K (length (offered ops)) /\
+  (length (items r) <= K)%nat /\ cap r = K /\
+  C05Check.model_hdr r = Some (C05Check.Hdr (seen_total ops) (Z.of_nat K) (Z.of_nat (Nat.min K (length (offered ops))))) /\
+  (Forall adds_only ops -> seen_total ops = Z.of_nat (length ops)) /\
+  (Forall op_counts_ok ops ->
+     Z.of_nat (length (items r)) <= seen r /\
+     seen (fst (split r)) + seen (snd (split r)) = seen r /\
+     items (fst (split r)) ++ items (snd (split r)) = items r /\
+     length (items (fst (split r))) = cap (fst (split r)) /\ length (items (snd (split r))) = cap (snd (split r)) /\
+     failed (fst (split r)) = failed r /\ failed (snd (split r)) = failed r).
+Proof.
+  cbv zeta.
+  split; [apply reservoir_seen_exact|]. split; [apply reservoir_len_min|]. split; [apply reservoir_len_le_cap|].
+  split; [apply reservoir_cap|].
+  split. { unfold C05Check.model_hdr, C05Check.zlen. rewrite reservoir_seen_exact, reservoir_cap, reservoir_len_min. reflexivity. }
+  split; [apply seen_total_adds|].
+  intros Hok. pose proof (reservoir_seen_ge_len K ops Hok) as Hge. unfold counts_ok in Hge.
+  split; [exact Hge|]. split; [apply split_seen_sum; exact Hge|]. split; [apply split_items|].
+  destruct (split_within_cap (run_res K ops)) as [A B]. destruct (split_failed (run_res K ops)) as [C D].
+  repeat split; assumption.
+Qed.
+
+(* a failed delivery is carried over at most 10 times; the counter it leaves *)
+Lemma carried_counts r o :
+  (carried o = true <-> failed o + 1 <= 10) /\
+  failed (Reservoir.merge_failed r o) = (if carried o then failed o + 1 else failed r) /\
+  (carried o = false -> Reservoir.merge_failed r o = r).
+Proof. split; [apply carried_limit|]. split; [apply ReservoirProofs.merge_failed_counter|apply merge_failed_discard]. Qed.
+
+(* ================================================================== errors, slow SQLs, traces *)
+Theorem small_containers_bound :
+  (forall es, exists h, run_errors (Z.to_nat MaxErrors) es = Some h /\ (length (e_items h) <= 20)%nat) /\
+  (forall obs, (length (sl_items (run_slow (Z.to_nat MaxSlowSQLs) obs)) <= 10)%nat) /\
+  (forall l, exists ts, run_offers l = Some ts /\
+     (length (ErrTrace.t_items (regular ts)) <= 1)%nat /\ (length (ErrTrace.t_items (force_persisted ts)) <= 10)%nat /\
+     (length (ErrTrace.t_items (synthetics ts)) <= 20)%nat).
+Proof.
+  split.
+  { intros es. destruct (errors_topk_fifo (Z.to_nat MaxErrors) es ltac:(cbn; lia)) as [[h [H1 [_ H3]]] _].
+    exists h. split; [exact H1|exact H3]. }
+  split.
+  { intros obs. apply (slowsql_len_le_cap (Z.to_nat MaxSlowSQLs) obs). }
+  intros l. destruct (traces_longest l) as [ts [Hr Hp]]. exists ts. rewrite run_offers_eq. split; [exact Hr|].
+  split; [apply (proj2 (Hp PRegular))|]. split; [apply (proj2 (Hp PForce))|apply (proj2 (Hp PSynth))].
+Qed.
+
+(* ================================================================== the monitor accepts the model *)
+(* the capacities the model negotiates pass the capacity monitor of Limits.v whenever the report period
+   does not wrap (below 2^40 ms) -- the link between the executable monitor and the theorems above is
+   exercised by the differential runs; here, the non-vacuity examples *)
+
+(* ================================================================== non-vacuity *)
+Example negotiate_example :
+  let a := Agent 5000 3000 70000 in
+  let r := ReplyIn (Some (RawEhc (JInt 5000) JAbsent (JInt 833) (JInt 200000) JAbsent (JInt 1000)))
+                   (Some (RawSehc (JInt 60000) (JInt 700))) in
+  option_map (fun e => map (harvest_cap e) ecats) (negotiate a r) = Some [100; 833; 100000; 700; 250] /\
+  reply_well_formed r = true /\
+  advertised a = (60000, (100, 10000, 70000, 5000, 3000)).
+Proof. vm_compute. repeat split. Qed.
+
+(* agent log limit 3000 per minute, collector period 5 s: 3000 * 5 / 60 = 250 < 1000 *)
+Example negotiate_refused_example :
+  negotiate (Agent 0 0 0) (ReplyIn (Some (RawEhc JAbsent (JInt (-1)) JAbsent JAbsent JAbsent JAbsent)) None) = None /\
+  negotiate (Agent 0 0 0) (ReplyIn (Some (RawEhc JAbsent (JInt (2 ^ 63)) JAbsent JAbsent JAbsent JAbsent)) None) = None.
+Proof. vm_compute. split; reflexivity. Qed.
+
+(* since fix 61ac173 an agent value >= 2^63 (negative as an int) no longer yields a negative capacity ... *)
+Example agent_2_63_example :
+  option_map (fun e => harvest_cap e ELog)
+    (negotiate (Agent 0 (2 ^ 63) 0) (ReplyIn (Some (RawEhc (JInt 60000) JAbsent JAbsent JAbsent JAbsent (JInt 20000))) (Some (RawSehc JAbsent JAbsent))))
+  = Some 20000.
+Proof. vm_compute. reflexivity. Qed.
+(* ... but the test `agentLogLimit >= 0` is made AFTER the scaling, whose float-to-int conversion truncates
+   towards zero: an agent value of 2^64-1 .. 2^64-11 (-1 .. -11 as an int) with a 5 s report period scales to
+   -0.08 .. -0.92 -> 0, which passes the test: the log reservoir gets capacity 0 (log events disabled) instead of
+   the collector's 20000.  The bound of C05 holds (0 <= anything); reported as an observation. *)
+Example agent_minus_one_short_period_example :
+  option_map (fun e => harvest_cap e ELog)
+    (negotiate (Agent 0 (2 ^ 64 - 1) 0) (ReplyIn (Some (RawEhc (JInt 5000) JAbsent JAbsent JAbsent JAbsent (JInt 20000))) (Some (RawSehc JAbsent JAbsent))))
+  = Some 0 /\
+  option_map (fun e => harvest_cap e ELog)
+    (negotiate (Agent 0 (2 ^ 64 - 1) 0) (ReplyIn (Some (RawEhc (JInt 60000) JAbsent JAbsent JAbsent JAbsent (JInt 20000))) (Some (RawSehc JAbsent JAbsent))))
+  = Some 20000.
+Proof. vm_compute. split; reflexivity. Qed.
+
+Example counts_example5 :
+  let ops := [OAdd (mkEv 5 1); OAdd (mkEv 9 2); OMerge (mkRes 2 [mkEv 1 1] 7 0); OAdd (mkEv 3 3)] in
+  Forall op_counts_ok ops /\ seen (run_res 2 ops) = 10 /\ length (items (run_res 2 ops)) = 2%nat /\
+  seen (fst (split (run_res 2 ops))) = 5 /\ seen (snd (split (run_res 2 ops))) = 5.
+Proof. split; [repeat constructor; cbn; unfold counts_ok; cbn; lia|]. vm_compute. repeat split. Qed.
+
+Example metric_bound_example :
+  exists r, builds (BAdds (BNew MaxMetrics) [ACount ([1%N], []) false 1]) (exec (BAdds (BNew MaxMetrics) [ACount ([1%N], []) false 1])) r /\
+            base_max (BAdds (BNew MaxMetrics) [ACount ([1%N], []) false 1]) = MaxMetrics.
+Proof. destruct (exec_builds (BAdds (BNew MaxMetrics) [ACount ([1%N], []) false 1])) as [r H]. exists r. split; [exact H|reflexivity]. Qed.
+
+(* ================================================================== the statements of PropC05.v *)
+(* every reservoir of a harvest, for every agent setting, every connect reply, every offer sequence *)
+Theorem event_bound a r e : negotiate a r = Some e ->
+  forall k ops,
+    let cap := harvest_cap e k in
+    let held := Z.of_nat (length (items (run_res (Z.to_nat cap) ops))) in
+    0 <= cap /\ held <= cap /\ cap <= doc_max k /\
+    (forall j, collector_jval r k = Some j ->
+       cap <= capped (doc_max k) j /\ (k <> ELog -> cap = capped (doc_max k) j)) /\
+    (k = ELog ->
+       let agent := int_of_uint64 (a_log a) in
+       let p := ec_period (cfg_of (cfgs e) ELog) in
+       0 <= agent -> 0 <= p ->
+       cap <= agent * p / 60000000000 /\
+       forall j, collector_jval r ELog = Some j -> cap = Z.min (capped 20000 j) (agent * p / 60000000000)).
+Proof.
+  intros H k ops. cbv zeta. destruct (event_caps a r e H k) as [[A1 A2] [B C]].
+  split; [exact A1|]. split; [apply reservoir_holds; exact A1|]. split; [exact A2|]. split; [exact B|].
+  intros ->. apply (C eq_refl).
+Qed.
+
+(* the usual case spelled out in the collector's units: a log limit z and a report period of ms milliseconds *)
+Theorem log_limit_scaled a r e x ms z :
+  negotiate a r = Some e -> in_ehc r = Some x ->
+  r_period x = JInt ms -> 0 < ms < 9223372036854 -> r_log x = JInt z ->
+  a_log a < two63 -> 0 <= a_log a ->
+  harvest_cap e ELog = Z.min (Z.min 20000 z) (a_log a * ms / 60000).
+Proof.
+  intros H Hx Hp Hms Hl Ha1 Ha0.
+  destruct (negotiate_inv a r e H) as (e0 & Hp0 & He).
+  destruct (parse_log_period r e0 x Hp0 Hx) as (ms' & Hd & Hper).
+  rewrite Hp in Hd. cbn [dec_uint64] in Hd.
+  assert (Hin : in_uint64 ms = true).
+  { unfold in_uint64. rewrite two64_val. apply andb_true_intro. split; [apply Z.leb_le|apply Z.ltb_lt]; lia. }
+  rewrite Hin in Hd. inversion Hd; subst ms'. rewrite Hl in Hper. rewrite report_period_of_small in Hper by exact Hms.
+  assert (Hpe : ec_period (cfg_of (cfgs e) ELog) = ms * 1000000) by (rewrite He, process_log_period; exact Hper).
+  destruct (event_caps a r e H ELog) as [_ [_ C]]. specialize (C eq_refl). cbv zeta in C.
+  assert (Hag : int_of_uint64 (a_log a) = a_log a) by (apply wrap64_small; lia).
+  rewrite Hag, Hpe in C.
+  destruct (C Ha0 ltac:(lia)) as [_ C2].
+  assert (Hj : collector_jval r ELog = Some (JInt z)) by (cbn [collector_jval]; rewrite Hx; cbn [option_map]; rewrite Hl; reflexivity).
+  rewrite (C2 _ Hj). cbn [capped]. rewrite scaled_ms. reflexivity.
+Qed.
+
+Example log_limit_scaled_example :
+  exists a r e x, negotiate a r = Some e /\ in_ehc r = Some x /\ r_period x = JInt 5000 /\ r_log x = JInt 1000 /\
+                  a_log a = 3000 /\ harvest_cap e ELog = 250.
+Proof.
+  exists (Agent 0 3000 0), (ReplyIn (Some (RawEhc (JInt 5000) JAbsent JAbsent JAbsent JAbsent (JInt 1000))) None).
+  eexists. eexists. split; [vm_compute; reflexivity|]. repeat split.
+Qed.
+
+(* ================================================================== monitors and model *)
+(* the getEventConfig monitor accepts exactly what the model computes (for a non-negative maximum) *)
+Lemma mon_gec_sound raw rate dl dr : 0 <= dl ->
+  match get_event_config raw rate dl dr with
+  | None => mon_gec (GCase raw rate dl dr true 0 0) = true
+  | Some e => mon_gec (GCase raw rate dl dr false (ec_limit e) (ec_period e)) = true
+  end.
+Proof.
+  intros Hd. unfold get_event_config, mon_gec. cbn [g_raw g_rate g_dlimit g_drate go_err go_limit go_period].
+  destruct raw as [l|].
+  - destruct (Z.ltb_spec l 0); [reflexivity|]. cbn [ec_limit ec_period negb andb].
+    rewrite Z.eqb_refl, andb_true_r. apply Z.eqb_eq. destruct (Z.ltb_spec dl l); lia.
+  - cbn [ec_limit ec_period negb andb]. rewrite !Z.eqb_refl. reflexivity.
+Qed.
+
+(* and it rejects a limit above the maximum or a wrong period: the monitor is not vacuous *)
+Example mon_gec_rejects :
+  mon_gec (GCase (Some 101) 5 100 60 false 101 5) = false /\ mon_gec (GCase (Some 7) 5 100 60 false 7 60) = false /\
+  mon_gec (GCase (Some (-1)) 5 100 60 false 0 0) = false.
+Proof. repeat split. Qed.
+
+(* the negotiation monitor rejects: a capacity above the collector's limit, a log capacity above the scaled agent
+   limit, an advertised limit that ignores the agent's setting, a refused well-formed reply *)
+Example mon_nego_rejects :
+  let a := Agent 5000 3000 70000 in
+  let r := ReplyIn (Some (RawEhc (JInt 5000) JAbsent (JInt 833) (JInt 200000) JAbsent (JInt 1000)))
+                   (Some (RawSehc (JInt 60000) (JInt 700))) in
+  mon_nego a r (NegoObs true [100; 833; 100000; 700; 250] 60000 [100; 10000; 70000; 5000; 3000]) = true /\
+  mon_nego a r (NegoObs true [100; 834; 100000; 700; 250] 60000 [100; 10000; 70000; 5000; 3000]) = false /\
+  mon_nego a r (NegoObs true [100; 833; 100000; 700; 1000] 60000 [100; 10000; 70000; 5000; 3000]) = false /\
+  mon_nego a r (NegoObs true [100; 833; 100000; 700; 250] 60000 [100; 10000; 100000; 5000; 3000]) = false /\
+  mon_nego a r (NegoObs false [] 60000 [100; 10000; 70000; 5000; 3000]) = false.
+Proof. vm_compute. repeat split. Qed.
+
+(* what the capacity monitor of Limits.v guarantees about an OBSERVED capacity it accepts: the bounds of
+   event_bound (non-negative, at most the documented maximum, at most min(maximum, collector limit)) *)
+Lemma mon_cap_sound a r k c : mon_cap a r k c = true ->
+  0 <= c /\ c <= doc_max k /\ (forall j, collector_jval r k = Some j -> c <= capped (doc_max k) j).
+Proof.
+  unfold mon_cap. intros H. apply andb_prop in H. destruct H as [H0 H]. apply Z.leb_le in H0.
+  split; [exact H0|].
+  destruct (collector_jval r k) as [j|].
+  - pose proof (capped_le (doc_max k) j) as Hc.
+    assert (Hle : c <= capped (doc_max k) j).
+    { destruct k; try (apply Z.eqb_eq in H; lia).
+      destruct (a_log a <? 2 ^ 63); [|apply Z.leb_le in H; exact H].
+      destruct (spec_log_period_ms r <? 2 ^ 40); [apply Z.eqb_eq in H; lia|apply Z.leb_le in H; exact H]. }
+    split; [lia|]. intros j' Hj. inversion Hj; subst j'. exact Hle.
+  - apply Z.leb_le in H. split; [exact H|]. intros j Hj. discriminate Hj.
+Qed.
